@@ -96,17 +96,6 @@ Qed.
 Lemma upd_nth_none {A} n (a : A) l : nth_error l n = None -> upd_nth n a l = l.
 Proof. revert n. induction l as [|x l IH]; intros [|n] H; cbn in *; try discriminate; try reflexivity. f_equal. now apply IH. Qed.
 
-Lemma dcount_d_add i l d x : dcount i l (fst (d_add d x)) = dcount i l (fst d) + (if (fst x =? l)%N && idx_match i (snd x) then 1 else 0).
-Proof.
-  unfold d_add. cbn [fst]. rewrite dcount_app. unfold dcount at 2. cbn [filter].
-  destruct ((fst x =? l)%N && idx_match i (snd x)); reflexivity.
-Qed.
-Lemma dcount_d_del i l d x : dcount i l (snd (d_del d x)) = dcount i l (snd d) + (if (fst x =? l)%N && idx_match i (snd x) then 1 else 0).
-Proof.
-  unfold d_del. cbn [snd]. rewrite dcount_app. unfold dcount at 2. cbn [filter].
-  destruct ((fst x =? l)%N && idx_match i (snd x)); reflexivity.
-Qed.
-
 (* the delta sent to labelsz accounts exactly for the change of the list (with the kind repair) *)
 Lemma store_label_one_delta l cur adds i l' :
   let r := store_label_one true l cur adds in
